@@ -1585,6 +1585,13 @@ package engine
 //@   resolves-before-inspecting
 //@   loop 1 invariant[the-inverse-renaming-is-kept] forall a Variable :: has(s, a) ==> has(r, s[a]) && r[s[a]] == a
 //@   loop 1 invariant[the-renaming-is-injective] forall a Variable, b Variable :: has(s, a) && has(s, b) && s[a] == s[b] ==> a == b
+//@   bind rx = (*Env).Resolve#1
+//@   bind ry = (*Env).Resolve#2
+//@   loop 1 maintains[a-variable-is-matched-only-by-the-variable-it-is-renamed-to] rx is Variable ==>
+//@       ry is Variable && has(s, rx as Variable) && s[rx as Variable] == (ry as Variable)
+//@   loop 1 maintains[a-compound-is-matched-only-by-a-compound-of-the-same-name-and-arity] rx is Compound ==>
+//@       ry is Compound && Compound.Functor(rx as Compound) == Compound.Functor(ry as Compound) && Compound.Arity(rx as Compound) == Compound.Arity(ry as Compound)
+//@   loop 1 maintains[an-atomic-term-is-matched-only-by-itself] !(rx is Variable) && !(rx is Compound) ==> rx == ry
 
 //@ func (*clause).compileBody
 //@   property C03 C10
